@@ -356,6 +356,92 @@ def file_programs(tier):
     return P
 
 
+# ---- the file wrappers that take the lock (maildir/io.py) ---------------------
+
+def wrapper_cases():
+    """(class name, wrapper, file content kind, body raises) - complete."""
+    for cls in ('UidList', 'Subscriptions', 'UsersFile'):
+        for wrap in ('with_write', 'with_init', 'with_read'):
+            for content in ('missing', 'valid', 'corrupt', 'binary'):
+                for body_raises in (False, True):
+                    yield cls, wrap, content, body_raises
+
+
+_WRAP_FILES = {
+    'UidList': {'valid': b'3 V1 N2 Gabc\n1 :a\n', 'corrupt': b'3 V1 N5 Gabc\n'
+                b'garbage line without colon\n', 'binary': b'\xff\xfe\x00'},
+    'Subscriptions': {'valid': b'a\nb\n', 'corrupt': b'\xff\xfe\n',
+                      'binary': b'\x00\xff'},
+    'UsersFile': {'valid': b'alice:x:1:1::/x:\n', 'corrupt': b'nocolons\n',
+                  'binary': b'\xff:\xfe\n'},
+}
+
+
+def run_wrapper_case(case):
+    """A lock that was granted is released when the block is left - also
+    when entering the block fails after the lock was taken (the file cannot
+    be read).  Judged the moment the ``async with`` is over: no garbage
+    collection, no further loop iteration may be needed."""
+    import gc
+    cname, wrap, content, body_raises = case
+    from pymap.backend.maildir.uidlist import UidList
+    from pymap.backend.maildir.subscriptions import Subscriptions
+    from pymap.backend.maildir.users import UsersFile
+    cls = {'UidList': UidList, 'Subscriptions': Subscriptions,
+           'UsersFile': UsersFile}[cname]
+    d = tempfile.mkdtemp(prefix='c20w-', dir='/dev/shm'
+                         if os.path.isdir('/dev/shm') else None)
+    out = []
+    info = {}
+    saved_tmp = tempfile.tempdir
+    tempfile.tempdir = d
+    was = gc.isenabled()
+    gc.disable()
+    try:
+        if content != 'missing':
+            with open(cls.get_file(d), 'wb') as f:
+                f.write(_WRAP_FILES[cname][content])
+        lock = cls.get_lock(d)
+        kept = []
+
+        async def main():
+            try:
+                async with getattr(cls, wrap)(d):
+                    info['inside'] = lock is not None and \
+                        os.path.exists(lock)
+                    if body_raises:
+                        raise Boom()
+            except Boom:
+                info['outcome'] = 'body-raised'
+            except Exception as exc:       # noqa: BLE001
+                kept.append(exc)           # (a logger would keep it too)
+                info['outcome'] = type(exc).__name__
+            else:
+                info['outcome'] = 'ok'
+            info['left'] = lock is not None and os.path.exists(lock)
+        loop = VLoop()
+        loop.run_coro(main(), horizon=60.0)
+        loop.close()
+        site = f'wrapper:{cname}.{wrap}:{content}' + \
+            ('+raise' if body_raises else '')
+        if info.get('left'):
+            out.append(Violation(
+                'lockfile-left', site,
+                f'{cname}.{wrap} over a {content} file ended with '
+                f'{info.get("outcome")}; the lock file is still there when '
+                f'the async-with statement is over',
+                replay={'wrapper': list(case)}))
+        if 'outcome' not in info:
+            out.append(Violation('no-completion', site, f'{info}',
+                                 replay={'wrapper': list(case)}))
+    finally:
+        tempfile.tempdir = saved_tmp
+        if was:
+            gc.enable()
+        shutil.rmtree(d, ignore_errors=True)
+    return out, info.get('outcome')
+
+
 def run(*, tier, seed, jobs, progress, opts):
     t0 = time.perf_counter()
     max_tasks = int(opts.get('tasks', 3 if tier == 'quick' else 4))
@@ -382,6 +468,13 @@ def run(*, tier, seed, jobs, progress, opts):
             fst += s
             ftr += t
             fex += e
+    # the wrappers that take the lock around reading / writing a file
+    wcases = list(wrapper_cases())
+    wouts = {}
+    with mp.get_context('fork').Pool(njobs) as pool:
+        for v, oc in pool.imap_unordered(run_wrapper_case, wcases):
+            violations += v
+            wouts[oc] = wouts.get(oc, 0) + 1
     # E7: FileLock between real threads/processes (own event loop each),
     # scheduled at every filesystem call
     from . import c20mt
@@ -424,7 +517,8 @@ def run(*, tier, seed, jobs, progress, opts):
     mt['executions'] += thr['executions']
     cov = {'states': st + fst, 'transitions': tr + ftr + mt['executions'],
            'threading_rwlock': thr,
-           'traces_validated_against_impl': ex + fex + mt['executions'],
+           'traces_validated_against_impl': ex + fex + mt['executions']
+           + len(wcases),
            'filelock_threads': mt,
            'asyncio_rwlock': {'programs': len(progs),
                               'with_cancellation': len(progs),
@@ -433,6 +527,12 @@ def run(*, tier, seed, jobs, progress, opts):
                               'max_acquisitions_per_task': max_len},
            'filelock': {'scenarios': len(fp), 'states': fst,
                         'transitions': ftr, 'executions': fex},
+           'lock_taking_wrappers': {
+               'cases': len(wcases), 'outcomes': wouts,
+               'rule': '3 file classes x {with_write, with_init, with_read} '
+                       'x {missing, valid, corrupt, binary} file x body '
+                       '{returns, raises}: the lock file must be gone the '
+                       'moment the async-with statement is over'},
            'samples': ['/'.join(''.join(s) for s in p)
                        for p in progs[::max(1, len(progs) // 8)]],
            'exhaustive': True,
